@@ -19,33 +19,37 @@ impl F for f32 { fn slack() -> f64 { 1.0 / (1u64 << 20) as f64 } }
 impl F for f64 { fn slack() -> f64 { 1.0 / (1u64 << 40) as f64 } }
 
 /// oracle-only passes of the thorough tier evaluate every clause but write no protocol lines
-static QUIET: std::sync::atomic::AtomicBool = std::sync::atomic::AtomicBool::new(false);
-fn emit(out: &mut Out, line: impl FnOnce() -> String) { if !QUIET.load(std::sync::atomic::Ordering::Relaxed) { out.case(&format!("c10.{}", line())); } }
+pub(crate) static QUIET: std::sync::atomic::AtomicBool = std::sync::atomic::AtomicBool::new(false);
+pub(crate) fn emit(out: &mut Out, line: impl FnOnce() -> String) { if !QUIET.load(std::sync::atomic::Ordering::Relaxed) { out.case(&format!("c10.{}", line())); } }
+/// configuration suffix of the clause names: empty for the default type parameters / in-box colours of `run_floats!`; set by `c10_more.rs`
+/// for its extra streams (non-default RGB standard / white point / Lms matrix, colours above the operator's nominal maximum)
+pub(crate) static CFG: std::sync::Mutex<&'static str> = std::sync::Mutex::new("");
+pub(crate) fn tagof<T: F>(key: &str) -> String { format!("{}{}:{}", key, *CFG.lock().unwrap(), T::TAG) }
 
-fn bits_eq<T: F>(a: &[T], b: &[T]) -> bool {
+pub(crate) fn bits_eq<T: F>(a: &[T], b: &[T]) -> bool {
     a.len() == b.len() && a.iter().zip(b).all(|(x, y)| x.bits64() == y.bits64() || (x.to64().is_nan() && y.to64().is_nan()))
 }
-fn arr<C: ArrayCast<Array = [T; N]> + Clone, T, const N: usize>(c: &C) -> [T; N] { cast::into_array(c.clone()) }
-fn mk<C: ArrayCast<Array = [T; N]>, T, const N: usize>(a: [T; N]) -> C { cast::from_array(a) }
-fn clamp01<T: F>(f: T) -> T { if f < T::of(0.0) { T::of(0.0) } else if f > T::of(1.0) { T::of(1.0) } else { f } }
-fn dbg<T: F>(a: &[T]) -> String { format!("{:?}", a.iter().map(|x| x.to64()).collect::<Vec<_>>()) }
+pub(crate) fn arr<C: ArrayCast<Array = [T; N]> + Clone, T, const N: usize>(c: &C) -> [T; N] { cast::into_array(c.clone()) }
+pub(crate) fn mk<C: ArrayCast<Array = [T; N]>, T, const N: usize>(a: [T; N]) -> C { cast::from_array(a) }
+pub(crate) fn clamp01<T: F>(f: T) -> T { if f < T::of(0.0) { T::of(0.0) } else if f > T::of(1.0) { T::of(1.0) } else { f } }
+pub(crate) fn dbg<T: F>(a: &[T]) -> String { format!("{:?}", a.iter().map(|x| x.to64()).collect::<Vec<_>>()) }
 
 /// factors: a superset of [-1, 2], grid incl. -0, 0, 1, +-tiny, ends +- 1 ulp, plus random ones
-fn factors<T: F>(rng: &mut Rng, nrand: usize) -> Vec<T> {
+pub(crate) fn factors<T: F>(rng: &mut Rng, nrand: usize) -> Vec<T> {
     let mut v: Vec<T> = [-1.5, -1.0, -0.75, -0.5, -0.25, -1e-30, -0.0, 0.0, 1e-30, 1e-3, 0.125, 0.25, 0.5, 0.75, 1.0, 1.5, 2.0, 3.0].iter().map(|&x| T::of(x)).collect();
     v.push(T::of(1.0).nudge(-1)); v.push(T::of(1.0).nudge(1)); v.push(T::of(-1.0).nudge(1)); v.push(T::of(2.0).nudge(-1));
     for _ in 0..nrand { v.push(T::of(rng.range(-1.5, 2.5))); v.push(T::of(rng.unit())); }
     v
 }
 /// the factors of `fs` that lie in [0, 1], ascending (for the monotonicity clause)
-fn unit_sorted<T: F>(fs: &[T]) -> Vec<T> {
+pub(crate) fn unit_sorted<T: F>(fs: &[T]) -> Vec<T> {
     let mut u: Vec<T> = fs.iter().cloned().filter(|f| *f >= T::of(0.0) && *f <= T::of(1.0)).collect();
     u.sort_by(|a, b| a.partial_cmp(b).unwrap()); u
 }
 
 /// in-range colours of a type: the product of per-component boundary classes plus random ones inside the nominal box.
 /// Hues (no range) come from all around and beyond the circle.
-fn colors<T: F, const N: usize>(bx: &[(f64, f64); N], hue: Option<usize>, rng: &mut Rng, nrand: usize) -> Vec<[T; N]> {
+pub(crate) fn colors<T: F, const N: usize>(bx: &[(f64, f64); N], hue: Option<usize>, rng: &mut Rng, nrand: usize) -> Vec<[T; N]> {
     let per: Vec<Vec<f64>> = (0..N).map(|i| {
         let (lo, hi) = bx[i];
         if Some(i) == hue { vec![0.0, 90.0, 180.0, -180.0, 359.5, -270.25, rng.range(-360.0, 720.0)] }
@@ -61,13 +65,13 @@ fn colors<T: F, const N: usize>(bx: &[(f64, f64); N], hue: Option<usize>, rng: &
     }
     out
 }
-fn scale_of(bx: &(f64, f64)) -> f64 { bx.0.abs().max(bx.1.abs()).max(1e-3) }
-fn alphas<T: F>(rng: &mut Rng) -> [T; 3] { [T::of(1.0), T::of(0.0), T::of(rng.unit())] }
+pub(crate) fn scale_of(bx: &(f64, f64)) -> f64 { bx.0.abs().max(bx.1.abs()).max(1e-3) }
+pub(crate) fn alphas<T: F>(rng: &mut Rng) -> [T; 3] { [T::of(1.0), T::of(0.0), T::of(rng.unit())] }
 
 // ------------------------------------------------------------------------------------------------ Mix
-fn run_mix<C, T: F, const N: usize>(out: &mut Out, rng: &mut Rng, key: &str, bx: &[(f64, f64); N], hue: Option<usize>, nrand: usize)
+pub(crate) fn run_mix<C, T: F, const N: usize>(out: &mut Out, rng: &mut Rng, key: &str, bx: &[(f64, f64); N], hue: Option<usize>, nrand: usize)
 where C: ArrayCast<Array = [T; N]> + Clone + Mix<Scalar = T> + MixAssign<Scalar = T>, Alpha<C, T>: Mix<Scalar = T> + MixAssign<Scalar = T> + Clone {
-    let tag = format!("{}:{}", key, T::TAG);
+    let tag = tagof::<T>(key);
     let cs = colors::<T, N>(bx, hue, rng, nrand);
     let fs = factors::<T>(rng, 4 + nrand / 4);
     let npairs = nrand * 2 + 24;
@@ -113,9 +117,9 @@ where C: ArrayCast<Array = [T; N]> + Clone + Mix<Scalar = T> + MixAssign<Scalar 
     }
 }
 
-fn run_mix_pre<C, T: F, const N: usize>(out: &mut Out, rng: &mut Rng, key: &str, bx: &[(f64, f64); N], nrand: usize)
+pub(crate) fn run_mix_pre<C, T: F, const N: usize>(out: &mut Out, rng: &mut Rng, key: &str, bx: &[(f64, f64); N], nrand: usize)
 where C: ArrayCast<Array = [T; N]> + Clone + Mix<Scalar = T> + palette::blend::Premultiply<Scalar = T>, PreAlpha<C>: Mix<Scalar = T> + MixAssign<Scalar = T> + Clone {
-    let tag = format!("{}:{}", key, T::TAG);
+    let tag = tagof::<T>(key);
     let cs = colors::<T, N>(bx, None, rng, nrand);
     let fs = factors::<T>(rng, 2 + nrand / 8);
     for _ in 0..(nrand + 8) {
@@ -137,9 +141,9 @@ where C: ArrayCast<Array = [T; N]> + Clone + Mix<Scalar = T> + palette::blend::P
 
 // ------------------------------------------------------------------------------------------------ Lighten / Saturate
 macro_rules! gen_inc { ($fname:ident, $opname:expr, $Tr:ident, $TrA:ident, $m:ident, $mf:ident, $ma:ident, $mfa:ident, $d:ident, $df:ident, $da:ident, $dfa:ident, $dname:expr) => {
-fn $fname<C, T: F, const N: usize>(out: &mut Out, rng: &mut Rng, key: &str, bx: &[(f64, f64); N], hue: Option<usize>, lims: &[(usize, T, T)], nrand: usize)
+pub(crate) fn $fname<C, T: F, const N: usize>(out: &mut Out, rng: &mut Rng, key: &str, bx: &[(f64, f64); N], hue: Option<usize>, lims: &[(usize, T, T)], nrand: usize)
 where C: ArrayCast<Array = [T; N]> + Clone + $Tr<Scalar = T> + $TrA<Scalar = T>, [C]: $TrA<Scalar = T>, Alpha<C, T>: $Tr<Scalar = T> + $TrA<Scalar = T> + Clone {
-    let tag = format!("{}:{}", key, T::TAG);
+    let tag = tagof::<T>(key);
     let cs = colors::<T, N>(bx, hue, rng, nrand);
     let fs = factors::<T>(rng, 3 + nrand / 4);
     let unit = unit_sorted(&fs);
@@ -199,14 +203,17 @@ where C: ArrayCast<Array = [T; N]> + Clone + $Tr<Scalar = T> + $TrA<Scalar = T>,
             for (i, lo, hi) in lims.iter().cloned() {
                 let tol = T::slack() * hi.to64().abs().max(lo.to64().abs());
                 let (x, up, upf, dn, dnf) = (c[i].to64(), cur.0[i].to64(), cur.1[i].to64(), cur.2[i].to64(), cur.3[i].to64());
-                out.check(up >= x - tol && upf >= x - tol && dn <= x + tol && dnf <= x + tol, &format!("{}:toward-limit:{}", $opname, tag), || format!("{} f {:?}: component {} {} -> up {} fixed {} down {} fixed {}", dbg(c), f, i, x, up, upf, dn, dnf));
+                // (a start above the nominal maximum - in range where the bounds contract has no upper bound, e.g. Lch chroma - is moved to the limit: x.min(hi); identical for x <= hi)
+                out.check(up >= x.min(hi.to64()) - tol && upf >= x.min(hi.to64()) - tol && dn <= x + tol && dnf <= x + tol, &format!("{}:toward-limit:{}", $opname, tag), || format!("{} f {:?}: component {} {} -> up {} fixed {} down {} fixed {}", dbg(c), f, i, x, up, upf, dn, dnf));
                 if let Some(p) = &prev {
                     out.check(p.0[i].to64() <= up + tol && p.1[i].to64() <= upf + tol, &format!("{}:monotone:{}", $opname, tag), || format!("{} component {}: {} then {} (fixed {} then {}) at f {:?}", dbg(c), i, p.0[i].to64(), up, p.1[i].to64(), upf, f));
                     out.check(p.2[i].to64() >= dn - tol && p.3[i].to64() >= dnf - tol, &format!("{}:monotone:{}", $dname, tag), || format!("{} component {}: {} then {} (fixed {} then {}) at f {:?}", dbg(c), i, p.2[i].to64(), dn, p.3[i].to64(), dnf, f));
                 }
                 if f == T::of(1.0) {
                     out.check((up - hi.to64()).abs() <= tol && (upf - hi.to64()).abs() <= tol, &format!("{}:factor-1-reaches-limit:{}", $opname, tag), || format!("{} component {}: {} / fixed {} (limit {:?})", dbg(c), i, up, upf, hi));
-                    out.check((dn - lo.to64()).abs() <= tol && (dnf - lo.to64()).abs() <= tol, &format!("{}:factor-1-reaches-limit:{}", $dname, tag), || format!("{} component {}: {} / fixed {} (limit {:?})", dbg(c), i, dn, dnf, lo));
+                    // (the fixed forms move by amount x nominal maximum, so amount 1 covers the whole range only from a start within it: from a start ABOVE the
+                    // nominal maximum - `:above-max` stream of c10_more.rs, e.g. Lch chroma 256 - `desaturate_fixed(1)` gives x - hi, not lo; the relative form reaches lo from anywhere)
+                    out.check((dn - lo.to64()).abs() <= tol && ((dnf - lo.to64()).abs() <= tol || x > hi.to64()), &format!("{}:factor-1-reaches-limit:{}", $dname, tag), || format!("{} component {}: {} / fixed {} (limit {:?})", dbg(c), i, dn, dnf, lo));
                 }
             }
             prev = Some(cur);
@@ -217,9 +224,9 @@ gen_inc!(run_lighten, "lighten", Lighten, LightenAssign, lighten, lighten_fixed,
 gen_inc!(run_saturate, "saturate", Saturate, SaturateAssign, saturate, saturate_fixed, saturate_assign, saturate_fixed_assign, desaturate, desaturate_fixed, desaturate_assign, desaturate_fixed_assign, "desaturate");
 
 /// HWB family: whiteness and blackness move in opposite directions; in-range means w, b in [0,1] and w + b <= 1
-fn run_lighten_hwb<C, T: F>(out: &mut Out, rng: &mut Rng, key: &str, acc: [T; 4], nrand: usize)
+pub(crate) fn run_lighten_hwb<C, T: F>(out: &mut Out, rng: &mut Rng, key: &str, acc: [T; 4], nrand: usize)
 where C: ArrayCast<Array = [T; 3]> + Clone + Lighten<Scalar = T> + LightenAssign<Scalar = T>, [C]: LightenAssign<Scalar = T>, Alpha<C, T>: Lighten<Scalar = T> + LightenAssign<Scalar = T> + Clone {
-    let tag = format!("{}:{}", key, T::TAG);
+    let tag = tagof::<T>(key);
     let mut cs: Vec<[T; 3]> = vec![];
     let grid = [0.0, 1e-7, 0.25, 0.5, 0.75, 1.0];
     for &w in &grid { for &b in &grid { if w + b <= 1.0 { cs.push([T::of(rng.range(-360.0, 720.0)), T::of(w), T::of(b)]); } } }
@@ -279,9 +286,9 @@ where C: ArrayCast<Array = [T; 3]> + Clone + Lighten<Scalar = T> + LightenAssign
 }
 
 // ------------------------------------------------------------------------------------------------ Clamp (variant agreement only; the bounds contract itself is C03)
-fn run_clamp<C, T: F, const N: usize>(out: &mut Out, rng: &mut Rng, key: &str, bx: &[(f64, f64); N], hue: Option<usize>, nrand: usize)
+pub(crate) fn run_clamp<C, T: F, const N: usize>(out: &mut Out, rng: &mut Rng, key: &str, bx: &[(f64, f64); N], hue: Option<usize>, nrand: usize)
 where C: ArrayCast<Array = [T; N]> + Clone + Clamp + ClampAssign, [C]: ClampAssign, Alpha<C, T>: Clamp + ClampAssign + Clone {
-    let tag = format!("{}:{}", key, T::TAG);
+    let tag = tagof::<T>(key);
     let mut cs = colors::<T, N>(bx, hue, rng, nrand);
     // and colours outside the box
     let extra: Vec<[T; N]> = cs.iter().take(40 + nrand).map(|c| { let mut d = *c; for i in 0..N { let (lo, hi) = bx[i]; d[i] = T::of(c[i].to64() + (hi - lo) * rng.range(-1.5, 1.5)); } d }).collect();
@@ -306,11 +313,11 @@ where C: ArrayCast<Array = [T; N]> + Clone + Clamp + ClampAssign, [C]: ClampAssi
 }
 
 // ------------------------------------------------------------------------------------------------ hue operators + colour theory
-fn run_hue<C, T: F, const N: usize>(out: &mut Out, rng: &mut Rng, key: &str, bx: &[(f64, f64); N], hue: usize, nrand: usize)
+pub(crate) fn run_hue<C, T: F, const N: usize>(out: &mut Out, rng: &mut Rng, key: &str, bx: &[(f64, f64); N], hue: usize, nrand: usize)
 where C: ArrayCast<Array = [T; N]> + Clone + ShiftHue<Scalar = T> + ShiftHueAssign<Scalar = T> + WithHue<T> + SetHue<T> + Complementary + SplitComplementary + Analogous + Triadic + Tetradic,
       [C]: ShiftHueAssign<Scalar = T> + SetHue<T>,
       Alpha<C, T>: ShiftHue<Scalar = T> + ShiftHueAssign<Scalar = T> + WithHue<T> + SetHue<T> + Complementary + SplitComplementary + Analogous + Triadic + Tetradic + Clone {
-    let tag = format!("{}:{}", key, T::TAG);
+    let tag = tagof::<T>(key);
     let cs = colors::<T, N>(bx, Some(hue), rng, nrand);
     let mut amounts: Vec<T> = [-360.0, -180.0, -90.0, -1e-30, -0.0, 0.0, 1e-30, 30.0, 180.0, 360.0, 540.5].iter().map(|&x| T::of(x)).collect();
     for _ in 0..4 { amounts.push(T::of(rng.range(-720.0, 720.0))); amounts.push(T::of(rng.range(-1.0, 2.0))); }
@@ -368,9 +375,9 @@ where C: ArrayCast<Array = [T; N]> + Clone + ShiftHue<Scalar = T> + ShiftHueAssi
 }
 
 /// Lab-like types: complementary = a, b negated; tetradic = quarter turns of (a, b)
-fn run_lab<C, T: F, const N: usize>(out: &mut Out, rng: &mut Rng, key: &str, bx: &[(f64, f64); N], ia: usize, ib: usize, nrand: usize)
+pub(crate) fn run_lab<C, T: F, const N: usize>(out: &mut Out, rng: &mut Rng, key: &str, bx: &[(f64, f64); N], ia: usize, ib: usize, nrand: usize)
 where C: ArrayCast<Array = [T; N]> + Clone + Complementary + Tetradic, Alpha<C, T>: Complementary + Tetradic + Clone {
-    let tag = format!("{}:{}", key, T::TAG);
+    let tag = tagof::<T>(key);
     for c in &colors::<T, N>(bx, None, rng, nrand) {
         let cc: C = mk(*c);
         let comp = arr(&cc.clone().complementary());
@@ -391,10 +398,10 @@ where C: ArrayCast<Array = [T; N]> + Clone + Complementary + Tetradic, Alpha<C, 
 
 // ------------------------------------------------------------------------------------------------ component arithmetic
 macro_rules! gen_arith { ($fname:ident, $($Op:ident $OpA:ident $m:ident $ma:ident $line:expr, $lines:expr);+) => {
-fn $fname<C, T: F, const N: usize>(out: &mut Out, rng: &mut Rng, key: &str, bx: &[(f64, f64); N], hue: Option<usize>, nrand: usize)
+pub(crate) fn $fname<C, T: F, const N: usize>(out: &mut Out, rng: &mut Rng, key: &str, bx: &[(f64, f64); N], hue: Option<usize>, nrand: usize)
 where C: ArrayCast<Array = [T; N]> + Clone $(+ $Op<C, Output = C> + $Op<T, Output = C> + $OpA<C> + $OpA<T>)+,
       Alpha<C, T>: Clone $(+ $Op<Alpha<C, T>, Output = Alpha<C, T>> + $Op<T, Output = Alpha<C, T>> + $OpA<Alpha<C, T>> + $OpA<T>)+ {
-    let tag = format!("{}:{}", key, T::TAG);
+    let tag = tagof::<T>(key);
     let cs = colors::<T, N>(bx, hue, rng, nrand);
     for k in 0..(nrand * 3 + 30) {
         let (a, b) = if k < 10 { (cs[k % cs.len()], cs[(k * 5 + 1) % cs.len()]) } else { (*rng.pick(&cs), *rng.pick(&cs)) };
@@ -422,10 +429,10 @@ gen_arith!(run_addsub, Add AddAssign add add_assign "add", "adds"; Sub SubAssign
 gen_arith!(run_muldiv, Mul MulAssign mul mul_assign "mul", "muls"; Div DivAssign div div_assign "div", "divs");
 
 macro_rules! gen_arith_pre { ($fname:ident, $($Op:ident $OpA:ident $m:ident $ma:ident $line:expr);+) => {
-fn $fname<C, T: F, const N: usize>(out: &mut Out, rng: &mut Rng, key: &str, bx: &[(f64, f64); N], nrand: usize)
+pub(crate) fn $fname<C, T: F, const N: usize>(out: &mut Out, rng: &mut Rng, key: &str, bx: &[(f64, f64); N], nrand: usize)
 where C: ArrayCast<Array = [T; N]> + Clone + palette::blend::Premultiply<Scalar = T> $(+ $Op<C, Output = C> + $Op<T, Output = C>)+,
       PreAlpha<C>: Clone $(+ $Op<PreAlpha<C>, Output = PreAlpha<C>> + $Op<T, Output = PreAlpha<C>> + $OpA<PreAlpha<C>> + $OpA<T>)+ {
-    let tag = format!("{}:{}", key, T::TAG);
+    let tag = tagof::<T>(key);
     let cs = colors::<T, N>(bx, None, rng, nrand);
     for _ in 0..(nrand + 10) {
         let (a, b) = (*rng.pick(&cs), *rng.pick(&cs));
@@ -579,5 +586,7 @@ pub fn run(tier: &str, seed: u64, dir: &str) {
         }
         QUIET.store(false, std::sync::atomic::Ordering::Relaxed);
     }
+    // coverage-audit additions (forms / types / configurations the streams above do not reach): `c10_more.rs`. Called last, so that the case stream above is unchanged.
+    crate::c10_more::run_more(&mut out, &mut rng, thorough);
     out.finish(dir, "");
 }
